@@ -1,0 +1,39 @@
+// SPDX-FileCopyrightText: 2026 The Pion community <https://pion.ly>
+// SPDX-License-Identifier: MIT
+
+//go:build verif && verif_c31
+
+package samplebuilder
+
+// VerifBookkeeping is a read-only snapshot of the builder's unexported
+// bookkeeping, for the C31 correspondence harness.
+type VerifBookkeeping struct {
+	FilledHead, FilledTail     uint16
+	ActiveHead, ActiveTail     uint16
+	PreparedHead, PreparedTail uint16
+	DroppedPackets             uint16
+	PaddingPackets             uint16
+	HasLastSampleTimestamp     bool
+	LastSampleTimestamp        uint32
+	MaxLateTimestamp           uint32
+}
+
+// VerifState returns the current bookkeeping values.
+func (s *SampleBuilder) VerifState() VerifBookkeeping {
+	out := VerifBookkeeping{
+		FilledHead: s.filled.head, FilledTail: s.filled.tail,
+		ActiveHead: s.active.head, ActiveTail: s.active.tail,
+		PreparedHead: s.prepared.head, PreparedTail: s.prepared.tail,
+		DroppedPackets: s.droppedPackets, PaddingPackets: s.paddingPackets,
+		MaxLateTimestamp: s.maxLateTimestamp,
+	}
+	if s.lastSampleTimestamp != nil {
+		out.HasLastSampleTimestamp = true
+		out.LastSampleTimestamp = *s.lastSampleTimestamp
+	}
+
+	return out
+}
+
+// VerifBuffered reports whether slot i of the packet ring is occupied.
+func (s *SampleBuilder) VerifBuffered(i uint16) bool { return s.buffer[i] != nil }
